@@ -182,6 +182,7 @@ class Report:
         self.selftests = 0
         self.exhaustive = False
         self.rule = ""
+        self.nt_cases = set()
 
     def add_tlc(self, res, what):
         self.states += res.distinct
@@ -191,6 +192,14 @@ class Report:
 
     def count(self, key, n=1):
         self.nontrivial[key] = self.nontrivial.get(key, 0) + n
+
+    def case(self, e, trivial=("plain",)):
+        """Register one explored case; it is non-trivial when its feature key is not in `trivial`."""
+        self.evaluations += 1
+        f = e.get("feat", "plain")
+        self.count(f)
+        if f not in trivial:
+            self.nt_cases.add(sig(e.get("call") or {k: v for k, v in e.items() if k != "tid"}))
 
     def sample(self, obj, cap=6):
         if len(self.samples) < cap:
@@ -209,8 +218,7 @@ class Report:
         EVIDENCE.mkdir(exist_ok=True)
         REPLAYS.mkdir(exist_ok=True)
         wall = time.time() - self.t0
-        distinct_nt = sum(self.nontrivial.values()) if self.extra.get("nontrivial_disjoint") else max(
-            self.nontrivial.values(), default=0)
+        distinct_nt = len(self.nt_cases)
         cov = {
             "states": self.states,
             "transitions": self.transitions,
